@@ -40,6 +40,9 @@ def families(tier, seed):
         out.append(_w('let(values)', co.h_let_values, sh))
         out.append(_w('assign_from/apply', co.h_assign_apply, sh))
         out.append(_w('support', co.h_support, sh))
+    shw = Shape(sys=co.SAME_WIDTH, name='same-width')
+    out.append(_w('let(rename) between different hints', co.h_rename_replace, shw,
+                  dict(pairs=[('p', 'r')], bool='b', hint_mismatch=[('p', 'q'), ('q', 'p'), ('q', 'r')])))
     sh = Shape(sys=co.CONTEXTS['twins'], name='twins')
     out.append(_w('let(rename)/replace_with_bdd', co.h_rename_replace, sh,
                   dict(pairs=[('x', 'x2'), ('x2', 'x'), ('b', 'b2')], bool='b', mismatch=('x', 'b'), multi=MULTI)))
